@@ -34,17 +34,17 @@ BOUNDS = (
     "Canonical RDATA: every dnspython type that embeds a domain name (NS CNAME PTR DNAME SOA MX AFSDB RT KX RP "
     "PX SRV NAPTR SIG RRSIG | NSEC LP HIP IPSECKEY AMTRELAY SVCB HTTPS NSAP-PTR DSYNC TKEY TSIG CH-A) plus 27 "
     "name-free types and an unknown type, built from an independent layout table with upper/lower/boundary "
-    "octets (0x40 0x5B 0x60 0x7B, >=0x80) in every name, absolute and relative-to-origin; quick 40 / thorough "
+    "octets (0x40 0x5B 0x60 0x7B, >=0x80) in every name, absolute and relative-to-origin; quick 60 / thorough "
     "600 seeded rdatas per type. (MD MF MB MG MR MINFO NXT A6 are not implemented by dnspython and are handled as "
     "opaque RFC 3597 data; not judged.) RRSIG signing input: seeded RRsets of all those types, every label count "
     "0..n+1 for owners of 0..5 labels incl. wildcard owners, absolute and relative (owner, signer, rdata) forms; "
-    "quick 700 / thorough 12000. Key tags: all algorithms incl. RSAMD5, key lengths 0..300 incl. odd and carry-heavy "
+    "quick 1200 / thorough 12000. Key tags: all algorithms incl. RSAMD5, key lengths 0..300 incl. odd and carry-heavy "
     "keys; DS/CDS: SHA-1/256/384 via every entry point; NSEC3: salts 0..255 octets, iterations 0..150 (thorough "
-    "2500); ZONEMD SIMPLE with SHA-384/512 on seeded zones (quick 60 / thorough 800) with apex ZONEMD, its RRSIG, "
+    "2500); ZONEMD SIMPLE with SHA-384/512 on seeded zones (quick 100 / thorough 800) with apex ZONEMD, its RRSIG, "
     "non-apex ZONEMD, glue and occluded names; type bitmaps: exhaustive single types 0..65535 in thorough (quick: "
     "window edges) + seeded sets. NSEC chain: exhaustive enumeration of all layouts of a 6-name universe (quick: "
     "5-name; each name absent / data / delegation / delegation with DS / delegation with address at the cut owner) "
-    "x {relativized, absolute} x apex variants, plus seeded zones of up to 25 names with nested cuts, wildcards, "
+    "x {relativized, absolute} x apex variants, plus seeded zones (quick 250 of up to 12 names / thorough 3000 of up to 25 names) with nested cuts, wildcards, "
     "empty non-terminals and mixed case."
 )
 
@@ -401,14 +401,17 @@ def _exc(e):
 
 
 def _classify(got, rd):
+    """(stable class code, explanation)"""
     if got == rd["alt"] and rd["alt"] != rd["canon"]:
         if rd["names"]:
-            return ("embedded name lower-cased although the type is not in the RFC 4034 6.2 list" if not rd["listed"]
-                    else "embedded name of a type in the RFC 4034 6.2 list not lower-cased")
-        return "non-name octets lower-cased"
-    if any(b & 0xC0 == 0xC0 for b in got) and len(got) < len(rd["canon"]):
-        return "shorter than the uncompressed form (compression?)"
-    return "differs from the reference canonical form"
+            if not rd["listed"]:
+                return ("lowercased-outside-6.2-list",
+                        "embedded name lower-cased although the type is not in the RFC 4034 6.2 list (RFC 6840 5.1)")
+            return "not-lowercased-in-6.2-list", "embedded name of a type in the RFC 4034 6.2 list not lower-cased"
+        return "non-name-octets-lowercased", "octets that are not a domain name were lower-cased"
+    if len(got) < len(rd["canon"]):
+        return "shorter", "shorter than the uncompressed canonical form (compression or a dropped field)"
+    return "mismatch", "differs from the reference canonical form"
 
 
 def _canon_fail(rd, origin=None):
@@ -418,8 +421,8 @@ def _canon_fail(rd, origin=None):
     got = r.to_digestable(lib_name(origin) if origin is not None else None)
     if got == rd["canon"]:
         return None
-    why = _classify(got, rd)
-    return ("C15.canonical_rdata", f"{rd['t']}: {why}", {"site": "Rdata.to_digestable", "rdtype": rd["t"], "what": why})
+    code, why = _classify(got, rd)
+    return ("C15.canonical_rdata", f"{rd['t']}: {why}", {"site": "Rdata.to_digestable", "rdtype": rd["t"], "class": code})
 
 
 def chk_canonical(c):
@@ -440,9 +443,9 @@ def chk_canonical(c):
                         {"site": "Rdata.to_digestable", "rdtype": rd["t"], "what": "raises", "exc": _exc(e)}))
             continue
         if got != rd["canon"]:
-            why = _classify(got, rd)
+            code, why = _classify(got, rd)
             out.append(("C15.canonical_rdata", f"{rd['t']}: {why}",
-                        {"site": "Rdata.to_digestable", "rdtype": rd["t"], "what": why}))
+                        {"site": "Rdata.to_digestable", "rdtype": rd["t"], "class": code}))
     return out
 
 
@@ -538,7 +541,7 @@ def chk_rrsig(c):
         if got[:18] != want[:18]:
             cause = "RRSIG fixed fields"
         elif not got.startswith(want[: 18 + len(canon_name(signer_abs))]):
-            cause = ("relative non-empty signer name digested against the wrong origin" if rel_signer
+            cause = ("relative non-empty signer name made absolute against itself instead of the origin" if rel_signer
                      else "signer name")
         else:
             cause = "owner/RR part"
@@ -548,7 +551,8 @@ def chk_rrsig(c):
                     {"site": "dns.dnssec._make_rrsig_signature_data", "what": cause,
                      "wildcard_reduction": hdr[2] < len(owner_abs)}
                     if not cause.startswith("relative") else
-                    {"site": "dns.dnssec._make_rrsig_signature_data", "what": cause}))
+                    {"site": "dns.dnssec._make_rrsig_signature_data", "what": "signer name",
+                     "class": "relative non-empty signer"}))
     return out
 
 
@@ -561,7 +565,10 @@ def chk_keys(c):
     key = lib_rdata(IN, ktype, kw)
     tag = ref_key_tag(kw)
     for fn, nm in ((dns.dnssec.key_id, "dns.dnssec.key_id"), (lambda k: k.key_id(), "DNSKEYBase.key_id")):
-        got = fn(key)
+        try:
+            got = fn(key)
+        except Exception as e:
+            got = f"raises {_exc(e)}"
         if got != tag:
             out.append(("C15.key_tag", f"{nm} = {got}, RFC 4034 appendix B gives {tag} (algorithm {kw[3]}, {len(kw)} octets)",
                         {"site": nm, "what": "key tag", "rsamd5": kw[3] == 1, "odd": len(kw) % 2 == 1}))
@@ -583,7 +590,7 @@ def chk_keys(c):
                 if got != want or ds.rdtype != 43:
                     part = "key tag" if got[:2] != want[:2] else ("header" if got[:4] != want[:4] else "digest")
                     out.append(("C15.ds_digest", f"make_ds differs from RFC 4034 5.1.4 in the {part} (digest type {dt})",
-                                {"site": "dns.dnssec.make_ds", "what": part, "owner_form": nm_form}))
+                                {"site": "dns.dnssec.make_ds", "what": part}))
         if dt == 1:
             continue  # creation with SHA-1 is denied by the default policy of the remaining entry points
         try:
@@ -603,6 +610,8 @@ def chk_keys(c):
                 out.append(("C15.ds_digest", "dnskey_rdataset_to_cds_rdataset differs from the reference",
                             {"site": "dns.dnssec.dnskey_rdataset_to_cds_rdataset", "what": "content"}))
             got = dns.dnssec.make_ds_rdataset((oname, krds), {dt})
+            # (for DNSKEY/CDNSKEY input the library returns these DS contents in an rdataset of type CDS;
+            # the property speaks about the digests, so only the content is judged)
             if {r.to_wire() for r in got} != wants:
                 out.append(("C15.ds_digest", "make_ds_rdataset differs from the reference",
                             {"site": "dns.dnssec.make_ds_rdataset", "what": "content"}))
@@ -631,15 +640,18 @@ def chk_nsec3(c):
             continue
         if got.upper() != want:
             out.append(("C15.nsec3_hash", f"nsec3_hash differs from RFC 5155 section 5 (iterations {it}, salt {len(salt)} octets)",
-                        {"site": "dns.dnssec.nsec3_hash", "what": "hash", "salt_form": type(s).__name__,
-                         "iter0": it == 0}))
+                        {"site": "dns.dnssec.nsec3_hash", "what": "hash"}))
     return out
 
 
 def chk_bitmap(c):
     types = c["types"]
     want = ref_bitmap(types)
-    bm = dns.rdtypes.ANY.NSEC.Bitmap.from_rdtypes([dns.rdatatype.RdataType.make(t) for t in types])
+    try:
+        bm = dns.rdtypes.ANY.NSEC.Bitmap.from_rdtypes([dns.rdatatype.RdataType.make(t) for t in types])
+    except Exception as e:
+        return [("C15.type_bitmap", f"Bitmap.from_rdtypes({types[:8]}...) raises {_exc(e)}",
+                 {"site": "dns.rdtypes.util.Bitmap.from_rdtypes", "what": "raises", "exc": _exc(e)})]
     got = b"".join(bytes([w, len(b)]) + b for w, b in bm.windows)
     if got != want:
         return [("C15.type_bitmap", f"Bitmap.from_rdtypes({types[:8]}...) differs from RFC 4034 4.1.2 encoding",
@@ -743,6 +755,9 @@ def chk_nsec(c):
     lorigin = lower_labels(origin)
     z = _make_zone(c)
     want, cuts = ref_nsec_chain(c)
+    present = {}
+    for rr in c["rrs"]:
+        present.setdefault(lower_labels(rr["owner"]), set()).add(rr["rd"]["type"])
     signed = []
     try:
         if c["signer"] == "recorder":
@@ -788,9 +803,9 @@ def chk_nsec(c):
         wn, wb = want[n]
         if gn != wn:
             out.append(("C15.nsec_chain", f"NSEC next name is not the next authoritative name in canonical order",
-                        {"site": site, "what": "wrong next", "at_cut": n in cuts, "wrap": wn == ()}))
+                        {"site": site, "what": "wrong next"}))
         if gb != wb:
-            extra_at_cut = n in cuts
+            extra_at_cut = n in cuts and gb == ref_bitmap(present[n] | {46, 47})
             out.append(("C15.nsec_chain",
                         "NSEC type bitmap at a delegation owner sets types the parent is not authoritative for (RFC 4035 2.3)"
                         if extra_at_cut else "NSEC type bitmap differs from the types present (+RRSIG, NSEC)",
@@ -941,7 +956,7 @@ def run(R):
     quick = R.quick
 
     # ---------------------------------------------------------------- 1. canonical RDATA per type
-    per_type = 40 if quick else 600
+    per_type = 60 if quick else 600
     origin = [b"Example", b"COM"]
     for tname in [t[0] for t in TYPES_WITH_NAMES] + [t[0] for t in TYPES_NO_NAMES]:
         if R.deadline():
@@ -976,7 +991,7 @@ def run(R):
         _do(R, "order", {"rds": rds}, "C15.rrset_canonical_order", s, sample={"type": tname, "n": len(rds)})
 
     # ---------------------------------------------------------------- 3. RRSIG signing input
-    n_sig = 700 if quick else 12000
+    n_sig = 1200 if quick else 12000
     sig_types = [t[0] for t in TYPES_WITH_NAMES if t[1] == IN] + ["A", "AAAA", "TXT", "DS", "DNSKEY", "TYPE65280", "NSEC3"]
     s = 0
     while s < n_sig and not R.deadline():
@@ -1062,7 +1077,7 @@ def run(R):
         _do(R, "bitmap", {"types": types}, "C15.type_bitmap", ("set", s), sample={"types": types})
 
     # ---------------------------------------------------------------- 7. ZONEMD
-    n_z = 60 if quick else 800
+    n_z = 100 if quick else 800
     for s in range(n_z):
         if R.deadline():
             break
@@ -1078,7 +1093,7 @@ def run(R):
             sig2 = dict(sig2, wire=b"\x00\x06" + sig2["wire"][2:], canon=b"\x00\x06" + sig2["canon"][2:])
             c["rrs"].append({"owner": [], "rd": sig2, "ttl": 301})
         if s % 4 == 1:
-            c["rrs"].append({"owner": [b"Sub"], "rd": gen_rdata(rng, "ZONEMD"), "ttl": 60})
+            c["rrs"].append({"owner": [b"Zmd-Child"], "rd": gen_rdata(rng, "ZONEMD"), "ttl": 60})
         _do(R, "zonemd", c, "C15.zonemd_digest", s, sample={"rrs": len(c["rrs"]), "relativize": c["relativize"]})
 
     # ---------------------------------------------------------------- 8. NSEC chain
@@ -1105,7 +1120,7 @@ def run(R):
                 rrs.append({"owner": [], "rd": gen_rdata(rng, t), "ttl": 300})
             c = {"origin": origin, "rrs": rrs, "soa_serial_wire": serial, "relativize": relz, "signer": "recorder"}
             _do(R, "nsec", c, "C15.nsec_chain", ("apex", relz, extra), sample={"layout": "apex only", "relativize": relz})
-    n_nz = 150 if quick else 3000
+    n_nz = 250 if quick else 3000
     for s in range(n_nz):
         if R.deadline():
             break
